@@ -103,6 +103,8 @@ type HFacts struct {
 	RefuseGuards [][2]string // (function, condition): flag-dependent branches whose taken arm returns an error
 	FlagBranches [][3]string // (function, condition, shape) of every branch whose condition tests a read-only flag
 	CheckViewRet []string    // what luaCheckView returns, normalised ("nestedView" if it is the own context's counter)
+	// round 3c: the context slots
+	Slot *HSlotFacts
 }
 
 type HProgram struct {
@@ -475,6 +477,7 @@ func HExtract(dir string, files []string, extDirs map[string]string, tab *HTable
 	for k := range x.prog.Facts.CallersOf {
 		sort.Strings(x.prog.Facts.CallersOf[k])
 	}
+	x.prog.Facts.Slot = hxSlotFacts(x, dir)
 	return x.prog, nil
 }
 
